@@ -258,6 +258,28 @@ def check_pose(fx, R):
     except sym.Unsupported as u:
         R.undecided('G3', 'operator*(Affine3d,Pose3D)', 'symbolic reader: %s' % u)
         return
+    if len(states) > 1 and all(isinstance(x.ret, dict) for x in states):
+        # the propagation sits behind a guard: the path that propagates is judged below; a path that skips it under a TOLERANCE test on the
+        # covariance returns the default covariance for non-null inputs of small magnitude
+        from .. import earlyexit
+        main = [x for x in states if isinstance(x.ret.get('covariance'), sp.MatrixBase) and any(e_.has(*[j_ for j_ in Js if j_ != 0][:1]) for e_ in x.ret['covariance'])]
+        rest = [x for x in states if x not in main]
+        for x in rest:
+            tol = None
+            for c in x.cond:
+                node = c[3] if len(c) > 3 else None
+                t_ = earlyexit.is_tolerance_test(node) if node is not None else None
+                if t_ and 'covariance' in c[0]:
+                    tol = (c[0], t_, c[2])
+            desc = ' && '.join(('' if c[2] else '!') + '(' + c[0] + ')' for c in x.cond)
+            if tol:
+                R.violated('G3', 'operator*:covariance:tolerance-skip', 'on the path [%s] the covariance of the result is not J C J^T but what the default constructor left; the guard is %s, an absolute test: a non-null '
+                           'covariance whose entries are all below Eigen\'s default precision (1e-12: millimetre-level standard deviations in metres squared are 1e-6, micro-radians squared 1e-12) - inside the '
+                           'quantifier, every symmetric positive semi-definite covariance - is replaced by zero' % (desc, tol[1]), loc, 'E-STATE')
+            else:
+                R.undecided('G3', 'operator*(Affine3d,Pose3D):path[%s]' % desc, 'a path does not propagate the covariance; whether its condition is exact is not decided')
+        if len(main) == 1:
+            states = main
     if len(states) != 1 or not isinstance(states[0].ret, dict):
         R.undecided('G3', 'operator*(Affine3d,Pose3D)', 'result not readable as a pose (%d paths)' % len(states))
         return
